@@ -62,6 +62,12 @@ def run(ctx):
     for n, r in zip(cyc_orders, results):
         if r.distinct != 2 ** n:      # 2^n-1 cycle states + the closing revisit of Start with k = period
             raise MachineryError(f"cycle model order {n}: {r.distinct} states, expected {2**n}")
+    if thorough:
+        lem = ctx.tlc_eval("LFSRLemma", note="lemma: cycle through all-ones has length 2^n-1 <=> matrix order criterion, every trinomial n <= 11", timeout=3000)
+        mx = {tuple(p) for p in lem["maximal"]}
+        if not {(7, 6), (9, 5), (11, 9)} <= mx or lem["checked"] != 55:
+            raise MachineryError(f"LFSRLemma: unexpected result {lem}")
+        ctx.extra["lemma_trinomials_checked"] = lem["checked"]
     ctx.exhaustive = True
     ctx.assumptions += [
         "orders 7..20 (23 in thorough): every state of the generator cycle enumerated by TLC; PRBS31: primitivity via "
